@@ -848,6 +848,12 @@ func genC09(r *Rng, tier string) []Case {
 				x := d + life
 				one(ver, def(), d, x, "https://example.com/v", [][2]int64{{d - 1, 0}, {d - 1, 999999999}, {d, 0}, {d, 1}, {x - 1, 999999999}, {x, 0}, {x, 1}, {x + 1, 0}, {(d + x) / 2, 0}})
 			}
+			// verification times / windows one wrap of the 64-bit nanosecond clock (2^64 ns = 18446744073 s + 709551616 ns) apart
+			{
+				const wrapS, wrapNs = 18446744073, 709551616
+				one(ver, def(), d, d+100, "https://example.com/v", [][2]int64{{d + 50 + wrapS, wrapNs}, {d + wrapS, wrapNs}, {d + 50 - wrapS - 1, 1000000000 - wrapNs}, {d + 50 + wrapS/2, 0}})
+				one(ver, def(), d+wrapS, d+wrapS+100, "https://example.com/v", [][2]int64{{d + 50, 0}, {d + wrapS + 50, 0}})
+			}
 			// methods and stateful request headers
 			for _, m := range []string{"GET", "HEAD", "POST", "get", "PUT", "OPTIONS", "<empty>"} {
 				o := def()
@@ -886,7 +892,8 @@ func genC09(r *Rng, tier string) []Case {
 			one(ver, o, d, d+100, "https://example.com/v", mid)
 			// validity URL origin variants
 			for _, v := range []string{"https://example.com/v", "https://example.com:443/v", "https://example.com:8443/v", "http://example.com/v",
-				"https://www.example.com/v", "https://example.org/v", "https://EXAMPLE.com/v", "https://example.com", "https://example.com./v", "https:/v"} {
+				"https://www.example.com/v", "https://example.org/v", "https://EXAMPLE.com/v", "https://example.com", "https://example.com./v", "https:/v",
+				"/v", "v", "//example.com/v", "?q", "", "./v", "//example.com:443/v", "https://example.com.evil.test/v", "https://example.co/v", "https://example.com:84/v"} {
 				one(ver, def(), d, d+100, v, mid)
 			}
 			o2 := def()
